@@ -13,6 +13,8 @@ r = subprocess.run(["lake", "env", "lean", "ModbusProofs/Audit.lean"], cwd=LEAN,
 data = json.loads(r.stdout)
 out = {}
 for t in data["theorems"]:
+    if t["name"].endswith((".inj", ".injEq", ".sizeOf_spec")):
+        continue  # generated with an inductive type, not a statement of this project
     out.setdefault(t["module"].split(".")[-1], []).append(t["name"])
 for k in out:
     out[k].sort()
